@@ -2,6 +2,7 @@ package dbworld
 
 import (
 	"fmt"
+	"regexp"
 	"runtime"
 	"sort"
 	"strings"
@@ -111,8 +112,10 @@ func trimStack(s string) string {
 			break
 		}
 	}
-	return strings.Join(keep, " | ")
+	return hexRe.ReplaceAllString(strings.Join(keep, " | "), "0x?")
 }
+
+var hexRe = regexp.MustCompile(`0x[0-9a-f]+\??|\+0x[0-9a-f]+`)
 
 var leakedTxns []statedb.WriteTxn
 var leakedIters []statedb.ChangeIterator[*Obj]
